@@ -516,14 +516,14 @@ func run(c *vf.Ctx) {
 	g := gitx.New(c.Scratch)
 	os.Setenv("HOME", g.Home)
 	os.Setenv("XDG_CONFIG_HOME", g.Home)
-	n := c.N(40, 600)
+	n := c.N(40, 300)
 	vf.Parallel(n, 8, func(i int) { runSeq(c, g, i) })
 	c.Extra("git_invocations", gitx.Calls.Load())
-	c.Floor("sequences", c.Counter("sequences"), c.N(36, 560))
-	c.Floor("steps with at least one other worktree", c.Counter("steps_with_other_worktrees"), c.N(180, 3000))
-	c.Floor("isolation comparisons", c.Counter("isolation_comparisons"), c.N(350, 6000))
-	c.Floor("worktrees listed by git", c.Counter("worktrees_listed_by_git"), c.N(40, 600))
-	c.Floor("shared store checks", c.Counter("shared_store_checks"), c.N(40, 600))
+	c.Floor("sequences", c.Counter("sequences"), c.N(36, 280))
+	c.Floor("steps with at least one other worktree", c.Counter("steps_with_other_worktrees"), c.N(180, 1500))
+	c.Floor("isolation comparisons", c.Counter("isolation_comparisons"), c.N(350, 3000))
+	c.Floor("worktrees listed by git", c.Counter("worktrees_listed_by_git"), c.N(40, 300))
+	c.Floor("shared store checks", c.Counter("shared_store_checks"), c.N(40, 300))
 	c.Floor("operation kinds", c.SeenCount("ops"), 11)
 	c.Assume("two worktrees never have the same branch checked out (git forbids it; a commit through one would legitimately move the other's resolved HEAD); isolation is judged on the per-worktree HEAD file, index and files")
 	c.Assume("Remove only deletes the metadata directory (documented); the worktree directory itself is left alone and afterwards treated as dead")
